@@ -936,7 +936,7 @@ var summarySort = map[string]Summary{
 
 var summaryStrConv = map[string]Summary{
 	"strconv.init": NoDataFlowPropagation,
-	"strconv.Atoi": {[][]int{{0}}, [][]int{{0}}},
+	"strconv.Atoi": {[][]int{{0}}, [][]int{{0, 1}}},
 	// func AppendFloat(dst []byte, f float64, fmt byte, prec, bitSize int) []byte
 	"strconv.AppendFloat": {
 		[][]int{{0}, {0, 1}, {0, 2}, {0, 3}},
@@ -947,11 +947,11 @@ var summaryStrConv = map[string]Summary{
 	"strconv.FormatInt":   {[][]int{{0}, {1}}, [][]int{{0}, {0}}},
 	"strconv.FormatFloat": {[][]int{{0}, {1}, {2}, {3}}, [][]int{{0}, {0}, {0}, {0}}},
 	// func ParseBool(str string) (bool, error)
-	"strconv.ParseBool": {[][]int{{0}}, [][]int{{0}}},
+	"strconv.ParseBool": {[][]int{{0}}, [][]int{{0, 1}}},
 	// func(s string, base int, bitSize int) (i int64, err error)
-	"strconv.ParseInt": {[][]int{{0}, {1}, {2}}, [][]int{{0}, {0}, {0}}},
+	"strconv.ParseInt": {[][]int{{0}, {1}, {2}}, [][]int{{0, 1}, {0}, {0}}},
 	// func ParseFloat(s string, bitSize int) (float64, error)
-	"strconv.ParseFloat": {[][]int{{0}, {1}, {2}}, [][]int{{0}, {0}, {0}}},
+	"strconv.ParseFloat": {[][]int{{0}, {1}, {2}}, [][]int{{0, 1}, {0}, {0}}},
 	// func Quote(s string) string
 	"strconv.Quote": SingleVarArgPropagation,
 	// func Unquote(s string) (string, error)
@@ -1180,7 +1180,7 @@ var summaryTime = map[string]Summary{
 	// func Parse(layout, value string) (Time, error)
 	"time.Parse": {
 		[][]int{{0}, {1}},
-		[][]int{{0}, {0}},
+		[][]int{{0, 1}, {0, 1}},
 	},
 	// func ParseInLocation(layout string, value string, loc *Location) (Time, error
 	"time.ParseInLocation": {
